@@ -8,6 +8,7 @@ from sa import canon, normalize
 from sa.core import REPO
 out = {}
 allfuncs = []
+alldefs = {}
 for dirpath, dirnames, filenames in os.walk(os.path.join(REPO, 'photutils')):
     dirnames[:] = sorted(d for d in dirnames if d not in ('tests', '__pycache__'))
     for fn in sorted(filenames):
@@ -19,12 +20,15 @@ for dirpath, dirnames, filenames in os.walk(os.path.join(REPO, 'photutils')):
         if mod.endswith('.__init__'):
             mod = mod[:-9]
         tree = ast.parse(open(path, encoding='utf-8').read())
-        normalize.canonical_shapes(tree, mod)
         for q, node in canon._functions(tree, mod):
             allfuncs.append(q)
-            d = canon.local_defs(node)
+            d, alld = canon.local_defs(node, want_all=True)
             if d:
                 out[q] = d
+            multi = {k: v for k, v in alld.items() if len(v) > 1}
+            if multi:
+                alldefs[q] = multi
 out['__functions__'] = sorted(allfuncs)
+out['__alldefs__'] = alldefs
 json.dump({k: out[k] for k in sorted(out)}, open(os.path.join(V, 'canon_locals.json'), 'w'), indent=0)
-print(len(allfuncs), 'functions,', sum(len(v) for k, v in out.items() if k != '__functions__'), 'locals')
+print(len(allfuncs), 'functions,', sum(len(v) for k, v in out.items() if not k.startswith('__')), 'locals')
